@@ -5,6 +5,7 @@
   READING adopted (see the spec): the sea must have at least one cell.
 -/
 import CspuzModel.Proofs.C11Nurikabe
+import CspuzModel.Proofs.C11NurikabeEx
 namespace Cspuz.C11.Nurikabe
 open Cspuz Cspuz.Spec Cspuz.Puzzles.Nurikabe Cspuz.Spec.Nurikabe
 
@@ -31,16 +32,26 @@ theorem labels_iff_rules (pb : Problem) (white : Nat → Nat → Bool) :
 
 /-! ### non-vacuity: a 1 × 3 board with the clue 1 in the corner, and a "?" clue -/
 
-def exPb : Problem := { height := 1, width := 3, problem := [[1, 0, 0]] }
+abbrev exPb : Problem := Cspuz.Proofs.C11NurikabeEx.exPb     -- { height := 1, width := 3, problem := [[1, 0, 0]] }
 
 theorem exPb_wf : WellFormed exPb := by
   refine ⟨by decide, by decide, rfl, ?_⟩
   intro row hr
-  simp only [exPb, List.mem_singleton] at hr
+  simp only [exPb, Cspuz.Proofs.C11NurikabeEx.exPb, List.mem_singleton] at hr
   subst hr; rfl
 
 example : ∃ P, program exPb = .ok P ∧ P.keys = [11, 12, 13] ∧ P.decls.length = 14 :=
   ⟨_, Cspuz.Proofs.C11NurikabeA.program_eq exPb_wf, by decide, by decide⟩
+
+/-- The rule specification is not vacuous: white, black, black obeys the rules of `exPb` - and therefore the posted
+program has a model with these key values. -/
+example : Rules exPb [.b true, .b false, .b false] := Cspuz.Proofs.C11NurikabeEx.rules_ex
+
+example : ∃ P σ, program exPb = .ok P ∧ Sat P.decls P.cs σ ∧
+    P.keyVals σ = [some (.b true), some (.b false), some (.b false)] := by
+  obtain ⟨P, hP⟩ := total exPb exPb_wf
+  obtain ⟨σ, hσ, hk⟩ := ((program_iff_rules exPb exPb_wf P hP).1 _).2 Cspuz.Proofs.C11NurikabeEx.rules_ex
+  exact ⟨P, σ, hP, hσ, hk⟩
 
 def exPb2 : Problem := { height := 2, width := 2, problem := [[-1, 0], [0, 0]], unknownLow := some 2 }
 
